@@ -119,6 +119,11 @@ class PITFrozenTimestepMasker(PITTimestepMasker):
         self.beta.requires_grad = False
 
     @property
+    def theta(self) -> torch.Tensor:
+        # a frozen mask never receives gradients, whatever the value of `requires_grad`
+        return super().theta.detach()
+
+    @property
     def trainable(self) -> bool:
         return self.beta.requires_grad
 
